@@ -26,6 +26,7 @@ type deferEntry struct {
 	recv   *Val
 	callee types.Object
 	funVal *Val
+	orig   *deferEntry // the entry created by the defer statement (copies made at merges point back to it)
 }
 
 // State is one symbolic path (with merged sub-paths).
@@ -269,12 +270,19 @@ func (x *Unit) merge(a, b *State) *State {
 	for k, va := range a.env {
 		vb, ok := b.env[k]
 		if !ok {
-			continue // variable scoped to one branch
+			// declared on one path only: any later use (a deferred call, the rest of that path) is on that path
+			n.env[k] = va
+			continue
 		}
 		if va.S == vb.S {
 			n.env[k] = va
 		} else {
 			n.env[k] = Val{x.define(k.Name(), Ite(sel, va.T, vb.T)), va.Typ}
+		}
+	}
+	for k, vb := range b.env {
+		if _, ok := a.env[k]; !ok {
+			n.env[k] = vb
 		}
 	}
 	n.heap = make(map[string]T, len(a.heap))
@@ -345,19 +353,39 @@ func (x *Unit) merge(a, b *State) *State {
 	} else {
 		n.panicking = x.define("panicking", Ite(sel, a.panicking, b.panicking))
 	}
-	// defers: common prefix, then guarded remainders
+	// defers: entries of the same defer statement execution are merged (guards combined), the rest is guarded by its path
+	origOf := func(d *deferEntry) *deferEntry {
+		if d.orig != nil {
+			return d.orig
+		}
+		return d
+	}
 	i := 0
-	for i < len(a.defers) && i < len(b.defers) && a.defers[i] == b.defers[i] {
+	for i < len(a.defers) && i < len(b.defers) && origOf(a.defers[i]) == origOf(b.defers[i]) {
+		da, db := a.defers[i], b.defers[i]
+		if da == db {
+			n.defers = append(n.defers, da)
+		} else {
+			c := *da
+			c.orig = origOf(da)
+			if da.guard.IsTrue() && db.guard.IsTrue() {
+				c.guard = True
+			} else {
+				c.guard = x.define("dguard", Or(And(da.guard, a.pc), And(db.guard, b.pc)))
+			}
+			n.defers = append(n.defers, &c)
+		}
 		i++
 	}
-	n.defers = append(n.defers, a.defers[:i]...)
 	for _, d := range a.defers[i:] {
 		c := *d
+		c.orig = origOf(d)
 		c.guard = And(d.guard, a.pc)
 		n.defers = append(n.defers, &c)
 	}
 	for _, d := range b.defers[i:] {
 		c := *d
+		c.orig = origOf(d)
 		c.guard = And(d.guard, b.pc)
 		n.defers = append(n.defers, &c)
 	}
